@@ -199,8 +199,8 @@ Proof.
 Qed.
 
 Definition listed (s : st) (u : N) : list key :=
-  map fst (filter (fun kr => user_is u (r_user (snd kr))) (store s)) ++
-  map fst (filter (fun kg : key * option N => match snd kg with Some v => N.eqb u v | None => false end) (graves s)).
+  map fst (filter (fun kg : key * option N => match snd kg with Some v => N.eqb u v | None => false end) (graves s)) ++
+  map fst (filter (fun kr => user_is u (r_user (snd kr))) (store s)).
 
 Lemma p_usersessions_ff s u : plan s = [] ->
   p_usersessions s u = (set_evs s ([EvUserSessions u true] ++ evs s), Some (listed s u)).
@@ -354,12 +354,13 @@ Definition NX : key -> nat -> Prop := fun _ _ => False.
 Definition ND : key -> Prop := fun _ => False.
 
 (* b: heap indices from b on are live (allocated since the last crash);
-   base: the supply when the event log was last emptied;
+   base = (n, old): the event log is new ++ old (newest first) where old is the
+      log at some earlier point when the supply was n; claims are about new;
    X: cache entries (key, object) excused from "the object's ID is the key"
       (inside RegenerateID only);
    D: a set of dead IDs: drawn, not stored, not cached, not the ID of a cached
       object, never saved under. *)
-Record inv (b : nat) (base : N) (X : key -> nat -> Prop) (D : key -> Prop) (s : st) : Prop := mkInv {
+Record inv (b : nat) (base : N * list ev) (X : key -> nat -> Prop) (D : key -> Prop) (s : st) : Prop := mkInv {
   i_plan : plan s = [];
   i_b : b <= length (heap s);
   i_cok : forall k o, lookup (cache s) k = Some o -> exists ob, hget s o = Some ob /\ (o_id ob = k \/ X k o);
@@ -369,7 +370,7 @@ Record inv (b : nat) (base : N) (X : key -> nat -> Prop) (D : key -> Prop) (s : 
   i_fs : forall k r, In (k, r) (store s) -> kd (supply s) k /\ refd (supply s) r;
   i_fh : forall o ob, b <= o -> hget s o = Some ob -> kd (supply s) (o_id ob) /\ refd (supply s) (o_rec ob);
   i_fp : forall d k, In (d, k) (pending s) -> kd (supply s) k;
-  i_ev : wf_evs D base (evs s) /\ supply s = (base + draws (evs s))%N;
+  i_ev : exists new, evs s = new ++ snd base /\ wf_evs D (fst base) new /\ supply s = (fst base + draws new)%N;
   i_Dd : forall k, D k -> kd (supply s) k;
   i_Ds : forall k, D k -> lookup (store s) k = None;
   i_Dc : forall k k' o ob, D k -> lookup (cache s) k' = Some o -> hget s o = Some ob -> k' <> k /\ o_id ob <> k }.
@@ -379,6 +380,21 @@ Ltac dinv I :=
 
 Lemma inv_ffnd b base X D s : inv b base X D s -> ffnd s.
 Proof. intro I. split; [apply (i_plan _ _ _ _ _ I) | apply (i_ndc _ _ _ _ _ I)]. Qed.
+
+Lemma inv_ev0 b n X D s : inv b (n, []) X D s -> wf_evs D n (evs s) /\ supply s = (n + draws (evs s))%N.
+Proof.
+  intro I. destruct (i_ev _ _ _ _ _ I) as (new & He & Hw & Hs). cbn [fst snd] in *.
+  rewrite app_nil_r in He. subst new. split; assumption.
+Qed.
+
+(* the log clause can be restarted at any point, with any dead set that the
+   other clauses support *)
+Lemma inv_restart_log b base X D s :
+  inv b base X D s -> inv b (supply s, evs s) X D s.
+Proof.
+  intro I. dinv I. constructor; try assumption. exists []. cbn [fst snd app draws wf_evs].
+  split; [reflexivity|]. split; [exact Logic.I | lia].
+Qed.
 
 Lemma wf_evs_quiet D base es l : Forall quiet es -> wf_evs D base l ->
   wf_evs D base (es ++ l) /\ draws (es ++ l) = draws l.
@@ -390,8 +406,8 @@ Qed.
 Lemma inv_quiet b base X D s es : Forall quiet es -> inv b base X D s -> inv b base X D (set_evs s (es ++ evs s)).
 Proof.
   intros Hq I. dinv I. constructor; sst; try assumption.
-  destruct Hev as [Hw Hs]. destruct (wf_evs_quiet D base es (evs s) Hq Hw) as [Hw' Hd'].
-  split; [exact Hw' | rewrite Hd'; exact Hs].
+  destruct Hev as (new & He & Hw & Hs). destruct (wf_evs_quiet D (fst base) es new Hq Hw) as [Hw' Hd'].
+  exists (es ++ new). split; [rewrite He; apply app_assoc|]. split; [exact Hw' | rewrite Hd'; exact Hs].
 Qed.
 
 Lemma inv_set_tb b base X D s t : inv b base X D s -> inv b base X D (set_tb s t).
@@ -403,7 +419,8 @@ Proof.
   intros I Hk Hr HnD. dinv I. unfold saved. constructor; sst; try assumption.
   - apply NoDup_upsert_keys. exact Hnds.
   - intros k' r' Hin. apply In_upsert in Hin. destruct Hin as [[-> ->]|Hin]; [split; assumption | apply Hfs; exact Hin].
-  - destruct Hev as [Hw Hs]. simpl. rewrite <- Hs. repeat split; assumption.
+  - destruct Hev as (new & He & Hw & Hs). exists (EvSave k (codec (conf s) r) true :: new).
+    split; [rewrite He; reflexivity|]. simpl. rewrite <- Hs. repeat split; assumption.
   - intros k' Hk'. rewrite lookup_upsert_other; [apply HDs; exact Hk' | intro; subst; contradiction].
 Qed.
 
@@ -446,7 +463,8 @@ Proof.
   intro I. dinv I. unfold deleted. constructor; sst; try assumption.
   - apply NoDup_remove_keys. exact Hnds.
   - intros k' r Hin. apply In_remove in Hin. apply Hfs. tauto.
-  - destruct Hev as [Hw Hs]. simpl. split; [split; [exact I|exact Hw] | exact Hs].
+  - destruct Hev as (new & He & Hw & Hs). exists (EvDelete k true :: new).
+    split; [rewrite He; reflexivity|]. simpl. split; [split; [exact I|exact Hw] | exact Hs].
   - intros k' Hk'. destruct (key_eq_dec k' k) as [->|Hne]; [apply lookup_remove_same|].
     rewrite lookup_remove_other by exact Hne. apply HDs. exact Hk'.
 Qed.
@@ -553,7 +571,8 @@ Proof.
   - intros k r Hin. destruct (Hfs k r Hin). split; [eapply kd_mono | eapply refd_mono]; eassumption.
   - intros o ob Hbo Ho. destruct (Hfh o ob Hbo Ho). split; [eapply kd_mono | eapply refd_mono]; eassumption.
   - intros d k Hin. eapply kd_mono; [exact Hle | eapply Hfp; exact Hin].
-  - destruct Hev as [Hw Hs]. simpl. split; [split; [exact Hs | exact Hw] | lia].
+  - destruct Hev as (new & He & Hw & Hs). exists (EvDraw (supply s) :: new).
+    split; [rewrite He; reflexivity|]. simpl. split; [split; [exact Hs | exact Hw] | lia].
   - intros k Hk. eapply kd_mono; [exact Hle | apply HDd; exact Hk].
 Qed.
 
